@@ -282,6 +282,8 @@ func init() {
 			}},
 		Rule{ID: "C08.h", Explain: "ModPow reports a missing inverse as an error: its callers on the verification paths test only the error, so a nil result without an error (big.Int.Exp on a non-invertible base with a negative exponent) is dereferenced (the obligations of C19.b, same rule).",
 			Run: func(P *Program, R *Report) { sharedRule(P, R, "C19", "C19.b", "C08.h", nil) }},
+		Rule{ID: "C08.j", Explain: "values remembered for a later comparison are present: in the functions reachable from the verification entry points a *big.Int taken from a proof (the result of an interface method such as SecretKeyResponse, or a field) that is stored in a local map is nil-tested before the store on every path - the value is dereferenced when a later proof is compared with it, so a nil remembered from the first proof panics on the second.",
+			Run: func(P *Program, R *Report) { rememberedValuesRule(P, R, "C08.j") }},
 		Rule{ID: "C08.i", Explain: "optional key material: a well-formed public key that does not support revocation has no ECDSA key (the field is nil). In the functions reachable from the verification entry points the issuer's ECDSA key is handed to a call (the signature check dereferences it) only after a nil test of that field on every path from the entry point.",
 			Run: func(P *Program, R *Report) { optionalKeyMaterialRule(P, R, "C08.i") }},
 	)
@@ -633,4 +635,38 @@ func paramNilGuarded(P *Program, g *ssa.Function, p *ssa.Parameter, depth int) (
 		}
 	}
 	return true, ""
+}
+
+// rememberedValuesRule: see C08.j.
+func rememberedValuesRule(P *Program, R *Report, rule string) {
+	n := 0
+	for _, fn := range P.reachableFuncs(c08Entries(P)...) {
+		if fn.Blocks == nil || !inModuleFn(fn) {
+			continue
+		}
+		allInstrs(fn, func(i ssa.Instruction) {
+			mu, ok := i.(*ssa.MapUpdate)
+			if !ok || !isBigIntPtr(mu.Value.Type()) {
+				return
+			}
+			if _, local := mu.Map.(*ssa.MakeMap); !local {
+				return
+			}
+			// values the function made itself are not nil
+			switch v := mu.Value.(type) {
+			case *ssa.Alloc:
+				return
+			case *ssa.Call:
+				if bigMethod(v) != "" || isCallTo(v, "math/big.NewInt", "big.NewInt") {
+					return
+				}
+			}
+			n++
+			q := &MustPass{P: P, NoInterproc: true, Match: func(a Atom) bool { return a.V == mu.Value && a.Want == NonNil }}
+			r := q.MustReach(fn, mu)
+			R.seen(FuncKey(fn))
+			R.decide(rule, fmt.Sprintf("%s:remembered(%s)", FuncKey(fn), desc(mu.Value)), "the value stored in the local map was nil-tested before", r.Holds, r.Path, P.Pos(mu.Pos()))
+		})
+	}
+	R.decide(rule, "sites:count", "stores of proof values into local maps were found (>= 1)", n >= 1, fmt.Sprintf("%d", n), "")
 }
